@@ -52,11 +52,14 @@ def gen(rng, tier, index):
     outcomes = ["ok", "ok", "slow", "fail", "timeout", "unreach"] if flavour in ("tcp", "atcp") else ["ok", "ok", "slow", "fail"]
     plan = [rng.choice(outcomes) for _ in range(rng.randint(0, 6))] if mode in ("events", "stop_during_retry") else []
     events = []
+    stop_save_fault = None
     if mode == "stop_during_retry":
         # stop() (or a user disconnect) lands while the connect loop is between two failed attempts
         fails = ["fail", "fail", "timeout", "unreach"] if flavour in ("tcp", "atcp") else ["fail"]
         plan = [rng.choice(fails) for _ in range(rng.randint(2, 5))] + ["ok", "ok"]
         events = [[rng.choice(["stop", "stop", "disconnect"]), rng.choice([0.3, 0.9, 1.4, 2.2, 3.5]) * rt]]
+        if events[0][0] == "stop" and rng.random() < 0.4:
+            stop_save_fault = [rng.choice(["open", "write", "fsync", "rename"]), rng.choice(["EIO", "ENOSPC"])]
     if mode == "events":
         for _ in range(rng.randint(1, 8)):
             name = rng.choice(EVENTS[flavour])
@@ -75,8 +78,10 @@ def gen(rng, tier, index):
     sched = {"policy": "serial"}
     if flavour in ("serial", "tcp") and pol < 0.35:
         sched = {"policy": "rw", "seed": rng.getrandbits(32), "p": rng.choice([0.005, 0.02])}
-    return {"cfg": {"flavour": flavour, "rt": rt, "mode": mode, "plan": plan, "lat": lat, "version": rng.choice(["1.4", "2.0", "2.2"]),
-                    "sched": sched}, "ops": events}
+    cfg = {"flavour": flavour, "rt": rt, "mode": mode, "plan": plan, "lat": lat, "version": rng.choice(["1.4", "2.0", "2.2"]), "sched": sched}
+    if stop_save_fault:
+        cfg["stop_save_fault"] = stop_save_fault
+    return {"cfg": cfg, "ops": events}
 
 
 def _vio(cls, detail, **sig):
@@ -88,7 +93,10 @@ def run(case):
     cfg = case["cfg"]
     flavour, rt = cfg["flavour"], cfg["rt"]
     is_async = W.is_async(flavour)
-    world = W.World(flavour, {"protocol_version": cfg["version"], "reconnect_timeout": rt}, sched=cfg["sched"], max_steps=4_000_000)
+    gw_kwargs = {"protocol_version": cfg["version"], "reconnect_timeout": rt}
+    if cfg.get("stop_save_fault"):
+        gw_kwargs.update(persistence=True, persistence_file="/work/ms.json")
+    world = W.World(flavour, gw_kwargs, sched=cfg["sched"], max_steps=4_000_000)
     sim = world.sim
     dev = world.device
     violations, probes, faults = [], {}, {}
@@ -105,7 +113,7 @@ def run(case):
             if cfg["mode"] == "watchdog_silence":
                 dev.version_plan += [None] * 200  # after the drawn answers: silence
             try:
-                world.start()
+                world.start(persistence=bool(cfg.get("stop_save_fault")))
             except (kernel.SimAbort, kernel.Deadlock):
                 raise
             except Exception as exc:  # pylint: disable=broad-except
@@ -114,14 +122,48 @@ def run(case):
                 raise _Done()
             if cfg["mode"] == "stop_during_retry":
                 name, when = case["ops"][0]
+                conn = dev.current()
+                if is_async and conn is not None:
+                    # the asyncio start() returns only once the first dial has succeeded: the connect loop that
+                    # stop() is to interrupt is the re-dial after a lost link (every dial fails for a while)
+                    dev.connect_plan = [p for p in cfg["plan"] if p != "ok"] * 3 + ["ok", "ok"]
+                    exc = _real_serial.SerialException("device gone") if flavour == "aserial" else OSError(104, "reset")
+                    conn.fail_read(exc)
+                    losses.append({"conn": conn.conn_id, "t": sim.now, "user": False, "kind": "read_error"})
+                    faults["read_error"] = faults.get("read_error", 0) + 1
                 world.advance(when)
                 faults[name + "_during_retry"] = 1
                 if dev.current() is None:
                     probes["stop_while_connect_loop_sleeping"] = 1
                 if name == "stop":
+                    if cfg.get("stop_save_fault"):
+                        # persistence is on and the final save of this stop() fails (disk full, I/O error): whatever
+                        # stop() does about that, the connect loop must be gone afterwards
+                        gateway.tasks.persistence.need_save = True
+                        fs = world.fs
+                        planted = []
+
+                        def plant(opname, _path, fs=fs, planted=planted):
+                            if opname == cfg["stop_save_fault"][0] and not planted:
+                                planted.append(1)
+                                fs.plan[fs.opno] = cfg["stop_save_fault"][1]
+
+                        fs.arm({})
+                        fs.trace = plant
+                        faults["final_save_" + cfg["stop_save_fault"][1]] = 1
                     stop_called = sim.now
-                    world.stop()
+                    try:
+                        world.stop()
+                    except (kernel.SimAbort, kernel.Deadlock):
+                        raise
+                    except BaseException as exc:  # pylint: disable=broad-except
+                        if not cfg.get("stop_save_fault"):
+                            raise
+                        probes["stop_raised_on_failing_save"] = 1
+                        _ = exc
                     stop_returned = sim.now
+                    world.fs.trace = None
+                    world.fs.disarm()
                     probes["stop_runs"] = 1
                 else:
                     user_disconnected = sim.now
